@@ -179,6 +179,9 @@ impl IoState {
 }
 
 impl Read for MonReader {
+    fn read_vectored(&mut self, bufs: &mut [std::io::IoSliceMut<'_>]) -> std::io::Result<usize> {
+        self.vectored(bufs)
+    }
     fn read(&mut self, buf: &mut [u8]) -> std::io::Result<usize> {
         let mut s = self.st.borrow_mut();
         let call = s.calls;
@@ -256,6 +259,26 @@ impl Read for MonReader {
         }
         s.pos = pos + n as u64;
         s.push(IoEvent { call, api, kind: IoKind::Read, pos, req, outcome: Outcome::Ok(n as u64) });
+        Ok(n)
+    }
+}
+
+impl MonReader {
+    /// `Read::read_vectored` done natively (as `File`, `Cursor` and `BufReader` do): one I/O call that may fill several
+    /// buffers, under the same faults and short-read policy as `read`.
+    fn vectored(&mut self, bufs: &mut [std::io::IoSliceMut<'_>]) -> std::io::Result<usize> {
+        let total: usize = bufs.iter().map(|b| b.len()).sum();
+        let mut tmp = vec![0u8; total.min(1 << 20)];
+        let n = self.read(&mut tmp)?;
+        let mut done = 0;
+        for b in bufs.iter_mut() {
+            if done == n {
+                break;
+            }
+            let k = b.len().min(n - done);
+            b[..k].copy_from_slice(&tmp[done..done + k]);
+            done += k;
+        }
         Ok(n)
     }
 }
